@@ -24,6 +24,11 @@ func init() {
 	add("C12", ruleNoStaleRegistryArray)
 	add("C10", ruleNoStaleRegistryArray)
 	add("C11", ruleContextAttachedByTheHostOnly)
+	add("C02", rulePCallHandsItsArgumentsOn)
+	// a prototype is shared by every closure made from it: a run-time write into it (a cached closure) is what
+	// makes two evaluations of one function expression the same object — C03 "fresh closure, creator's environment"
+	add("C03", ruleProto)
+	add("C06", ruleCurrentThreadRestoredOnRaise)
 }
 
 // dominatesAllReturns: the instruction lies on every path from the entry to every live return.
@@ -276,4 +281,92 @@ func ruleContextAttachedByTheHostOnly(c *Ctx) {
 			who+" calls "+target.Name()+": a thread's context is changed from inside the interpreter, so what the host attached, replaced or removed is not what the thread polls (a coroutine that adopted a cancelled context keeps failing after the host attached a fresh one)")
 	}
 	c.check(n == 2, R, "context-entry-points", "-", "SetContext and RemoveContext found", "SetContext / RemoveContext not found")
+}
+
+// rulePCallHandsItsArgumentsOn: C02 "a call passes exactly the values Lua prescribes": pcall(f, ...) calls
+// f itself with the arguments as received — a callable object goes through the __call dispatch of the
+// call machinery, which is what inserts the object as first argument. basePCall / baseXPCall do not
+// rewrite the argument slots before the protected call (Replace / Remove / Insert / SetTop may only
+// follow it).
+func rulePCallHandsItsArgumentsOn(c *Ctx) {
+	const R = "R02-full"
+	p := c.P
+	pcall := p.Fn("lua", "(*LState).PCall")
+	n := 0
+	for _, name := range []string{"basePCall", "baseXPCall"} {
+		fn := c.need(R, "lua", name)
+		if fn == nil || pcall == nil {
+			continue
+		}
+		g := p.G(fn)
+		calls := callsTo(fn, pcall)
+		if len(calls) != 1 {
+			c.und(R, name+":arguments-handed-on-as-received", p.pos(fn.Pos()), "expected exactly one PCall")
+			continue
+		}
+		n++
+		who := ""
+		for _, w := range []string{"(*LState).Replace", "(*LState).Remove", "(*LState).Insert", "(*LState).SetTop", "(*registry).Set", "(*registry).Insert"} {
+			wf := p.Fn("lua", w)
+			for _, cl := range callsTo(fn, wf) {
+				if g.Live(cl) && !g.Dominates(calls[0], cl) {
+					who = w
+				}
+			}
+		}
+		c.Sites++
+		c.check(who == "", R, name+":arguments-handed-on-as-received", p.pos(fn.Pos()), "no argument slot is rewritten before the protected call",
+			name+" rewrites its argument slots ("+who+") before the protected call: when the callee is replaced by its __call handler here, the call machinery no longer inserts the object as first argument — pcall(obj, a) runs the handler with self = a")
+	}
+	c.check(n == 2, R, "pcall-entry-points", "-", "basePCall and baseXPCall examined", "basePCall / baseXPCall not examined")
+}
+
+// ruleCurrentThreadRestoredOnRaise: C06 "coroutine.running / status answer for the thread that runs":
+// a function that saves G.CurrentThread, changes it, and puts the saved value back around a call that can
+// raise must do the putting-back in a deferred function — a plain statement after the call is skipped by
+// the unwinding panic and the global keeps naming a thread that is no longer running.
+func ruleCurrentThreadRestoredOnRaise(c *Ctx) {
+	const R = "R06-release"
+	p := c.P
+	curF := p.Field("lua", "Global", "CurrentThread")
+	if curF == nil {
+		c.und(R, "CurrentThread:restore-survives-a-raise", "-", "Global.CurrentThread not found")
+		return
+	}
+	raises := p.mayRaise()
+	stores := 0
+	for _, fn := range p.srcFuncs {
+		if fn.Pkg == nil || fn.Pkg.Pkg.Path() != luaPath || fn.Blocks == nil {
+			continue
+		}
+		var g *PCFG
+		allInstrs(fn, func(in ssa.Instruction) {
+			st, ok := isFieldStore(in, curF)
+			if !ok {
+				return
+			}
+			stores++
+			saved, isLoad := stripMI(st.Val).(*ssa.UnOp)
+			if !isLoad || !p.isLoadOfField(saved, curF) {
+				return
+			}
+			if g == nil {
+				g = p.G(fn)
+			}
+			var between ssa.Instruction
+			allInstrs(fn, func(mid ssa.Instruction) {
+				sc := staticCallee(mid)
+				if between == nil && sc != nil && raises[sc] && g.Live(mid) && g.Dominates(saved, mid) && g.Dominates(mid, in) {
+					between = mid
+				}
+			})
+			if between != nil {
+				c.Sites++
+				c.bad(R, "CurrentThread:restore-survives-a-raise:"+fname(fn), p.ipos(in),
+					fname(fn)+" puts the saved G.CurrentThread back in a plain statement after "+fname(staticCallee(between))+", which can raise: when it does, the unwinding skips the statement and CurrentThread keeps naming the other thread (coroutine.running() / status() answer for a thread that is not running)")
+			}
+		})
+	}
+	c.Sites += stores
+	c.check(stores >= 4, R, "CurrentThread:restore-survives-a-raise", "-", fmt.Sprintf("%d stores of G.CurrentThread examined, no save/restore pair around a raising call outside a deferred function", stores), "stores of G.CurrentThread not found")
 }
